@@ -145,6 +145,14 @@ def scenarios():
     S.append(("cache_memlimit", b"", Op("cache_memlimit", 10), {}))
     S.append(("raw-default", b"", Op("raw_command", b"version"), {}))
     S.append(("raw-END", setcmd(b"k", b"ab\r\ncd"), Op("raw_command", b"get k", end_tokens=b"END\r\n"), {}))
+    # replies whose total length is an exact multiple of the receive size: the recv() result that completes
+    # the end token is a full-size one
+    for total in (4096, 8192):
+        for L in range(total - 40, total):
+            if len(b"VALUE k 0 %d\r\n" % L) + L + len(b"\r\nEND\r\n") == total:
+                S.append((f"raw-aligned{total}", setcmd(b"k", _val(L)), Op("raw_command", b"get k", end_tokens=b"END\r\n"), {}))
+                S.append((f"get-aligned{total}", setcmd(b"k", _val(L)), Op("get", "k"), {}))
+                S.append((f"raw-aligned{total}-crlf", setcmd(b"k", _val(L)), Op("raw_command", b"get k", end_tokens=b"\r\nEND\r\n"), {}))
     S.append(("raw-onebyte", b"", Op("raw_command", b"version", end_tokens=b"\n"), {}))
     S.append(("raw-overlap", setcmd(b"k", b"aaaab-tail"), Op("raw_command", b"get k", end_tokens=b"aab"), {}))
     S.append(("raw-overlap2", setcmd(b"k", b"ababac"), Op("raw_command", b"get k", end_tokens=b"abac"), {}))
